@@ -42,13 +42,15 @@ def units(tier):
 
 
 def setup(ctx):
+    from .. import retain as _rt
+
     from gemdat.jumps import Jumps
     from gemdat.transitions import Transitions
 
     for nm in ('matrix', 'occupancy', 'occupancy_by_site_type', 'atom_locations'):
-        _mon.attach(Transitions, nm, label=f'Transitions.{nm}')
+        _mon.attach(Transitions, nm, label=f'Transitions.{nm}', retain=_rt.auto)
     for nm in ('matrix', '_counter', 'counter', 'jump_diffusivity', 'to_graph', 'rates'):
-        _mon.attach(Jumps, nm, label=f'Jumps.{nm}')
+        _mon.attach(Jumps, nm, label=f'Jumps.{nm}', retain=_rt.auto)
 
 
 def teardown(ctx):
